@@ -9,7 +9,8 @@ from .common import Check, Model, cps
 
 ASSUMPTIONS = [
     "C09 model: Lang/Lexer.v written from the lexical grammar of the specification; theorems: lex_total/spans/ordered (Properties/C09.v); character-class tables regenerated from the implementation and proved equal to the spec's (Gen/TableChecks.v)",
-    "strip/insert/token-limit laws are checked directly on the implementation (metamorphic), not proved: the parser is not modelled in this development",
+    "parser model (Lang/Parser.v): layout independence and the token limit are theorems; insertion of ignored sequences into real documents is additionally checked metamorphically",
+    *__import__("harness.cstrip", fromlist=["ASSUMPTIONS"]).ASSUMPTIONS,
 ]
 
 
@@ -40,8 +41,8 @@ def run(tier):
 
     ck = Check("C09", tier)
     ck.assumptions += ASSUMPTIONS
-    br = common.build("C09", models=("lang", "parser"))
-    ck.proofs(br)
+    br = common.build("C09", models=("lang", "parser", "strip"), extra_targets=("theories/Properties/C09strip.vo",))
+    ck.proofs(br, extra_files=("C09strip",))
     if not br.ok:
         # tables changed or a proof broke: search the implementation for a failing input below
         m = None
@@ -206,6 +207,11 @@ def run(tier):
         rule0 = ck.rule
         cparser.core(ck, tier, ("B", "D"))
         ck.rule = rule0 + " (D) parser model correspondence: see coverage.parser_rule"
+    from . import cstrip
+    rule1 = ck.rule
+    cstrip.core(ck, tier, m is not None)
+    ck.extra["strip_rule"] = ck.rule
+    ck.rule = rule1 + " (E) strip_ignored_characters vs the model Lang/Strip.v: see coverage.strip_rule"
     return ck.finish()
 
 
